@@ -22,7 +22,7 @@ FeReasons(r) ==
     LET ref == ToSet(r.ref)  raw == ToSet(r.raw)  fe == r.fe  has(n) == n \in DOMAIN fe IN
     UNION { IF has(n) THEN Cmp(n, JsonShown(fe[n]), Len(fe[n]), ExpectedJson(n, ref)) ELSE {}
             : n \in {"cfg-stream", "r-stream", "r-pretty", "r-compact", "stdin"} }
-    \cup (IF r.exits["stdin-github"].code \notin {0, 1} /\ has("stdin-github") THEN {<<"stdin-github", "command-failed">>} ELSE {})
+    \cup (IF has("stdin-github") /\ r.exits["stdin-github"].code \notin {0, 1} THEN {<<"stdin-github", "command-failed">>} ELSE {})
     \cup UNION { IF has(n) /\ r.exits[n].code \in {0, 1} THEN
                     LET want == ExpectedGithub(n, ref)  shown == GithubShown(fe[n])
                         hints == { GithubOf(f) : f \in { g \in ref : g.sev = "hint" } } IN
